@@ -73,7 +73,13 @@ Pinned == <<
   Mk(<<"A", "B", "C">>, << <<1, 0, 0>>, <<-1, 1, 0>>, <<0, -1, 1>>, <<0, 0, -1>>, <<-1, 0, 1>>, <<-1, 0, 0>> >>,
      <<-1, 0, 0, -1, -1, -5>>, <<2, 3, 3, 2, 2, 5>>, <<UC(<<0, 0, 0, 1, 0, 0>>, -1, 0, 0)>>, TRUE, <<-2, 3>>),  \* F63
   Mk(<<"A", "B", "C">>, << <<1, 0, 0>>, <<-1, 1, 0>>, <<0, -1, 1>>, <<0, 0, -1>>, <<-1, 0, 0>>, <<0, 1, 0>> >>,
-     <<0, 0, 0, 0, 0, 1>>, <<3, 3, 3, 2, 2, 1>>, <<UC(<<0, 0, 0, 1, 0, 0>>, -1, 0, 0)>>, TRUE, <<-2, 3>>)       \* F64
+     <<0, 0, 0, 0, 0, 1>>, <<3, 3, 3, 2, 2, 1>>, <<UC(<<0, 0, 0, 1, 0, 0>>, -1, 0, 0)>>, TRUE, <<-2, 3>>),      \* F64
+  \* F66 (and the former F60): a true segment off the origin; a two-dimensional space off the origin whose
+  \* FVA warm-up collapses to two vertices
+  Mk(<<"A", "B", "C">>, << <<1, 0, 0>>, <<-1, 1, 0>>, <<0, -1, 1>>, <<0, 0, -1>>, <<1, -1, 0>>, <<0, -1, 1>> >>,
+     <<-1, -1, 0, 1, 1, -2>>, <<2, 2, 3, 3, 2, -1>>, NoU, FALSE, <<0, 0>>),
+  Mk(<<"A", "B", "C">>, << <<1, 0, 0>>, <<-1, 1, 0>>, <<0, -1, 1>>, <<0, 0, -1>>, <<-1, 0, 0>> >>,
+     <<-2, -1, 0, 0, 1>>, <<4, 2, 2, 2, 2>>, NoU, FALSE, <<0, 0>>)
 >>
 
 Backbone == << <<1, 0, 0>>, <<-1, 1, 0>>, <<0, -1, 1>>, <<0, 0, -1>> >>
@@ -143,7 +149,9 @@ Cfg(i, q) ==
    P |-> IF meth = "optgp" THEN (IF d[5] % 3 = 0 THEN 2 + (d[6] % 2) ELSE 1) ELSE 1,
    fluxes |-> viaf \/ d[8] % 3 # 0,
    via |-> IF viaf THEN "function" ELSE "class"]
-CfgSeq(i) == [q \in 1..NCfg |-> Cfg(i, q)]
+\* the two pinned F66 witnesses (instances 18, 19) start with a fixed, long enough run
+WitnessCfg == [method |-> "achr", n |-> 20, thin |-> 10, seed |-> 7, nproj |-> 0, P |-> 1, fluxes |-> TRUE, via |-> "class"]
+CfgSeq(i) == [q \in 1..NCfg |-> IF q = 1 /\ i \in {18, 19} THEN WitnessCfg ELSE Cfg(i, q)]
 \* the design run also visits these on every instance (so that no clause depends on the draws)
 PinnedCfgs == {
   [method |-> "optgp", n |-> 17, thin |-> 1, seed |-> 7, nproj |-> 0, P |-> 3, fluxes |-> TRUE, via |-> "class"],
